@@ -587,6 +587,12 @@ theorem C09_frontend_skeleton :
     skelOf "src/iterator/mod.rs" "next" =
       ["loop", "poll_signal.has_signals", "signal.some", "closed.none", "pending.continue", "err.panic"] := by decide
 
+/-- **C09.action_skeleton** — tie to the source (regenerated): the action an instance registers for a signal
+stores into the signal's slot and then wakes the readers, unconditionally, in this order - the two steps of
+the model's delivery. -/
+theorem C09_action_skeleton :
+    skelOf backendFile "add_signal@wake_readers" = ["store", "wake", "register"] := by decide
+
 /-- **C09.constructor_skeleton** — tie to the source (regenerated): every front end makes one pair and
 hands its ends to `SignalDelivery::with_pipe` as (read, write), in this order: the end the consumer reads,
 polls or registers with its reactor is the end the deliveries do *not* write to. signal-hook-mio registers
